@@ -124,23 +124,36 @@ class Check:
     def open_findings(self):
         return [f for f in self.known.get("findings", []) if f.get("property") == self.pid and f.get("status") == "open"]
 
-    def confirm(self, candidates, make_replay, classify, max_confirm=40):
-        """candidates: list of dicts from Acc.  make_replay(c) -> (kind, body, key) ; classify(c) -> finding id | None"""
+    def confirm(self, candidates, make_replay, classify, max_confirm=40, per_finding=3):
+        """candidates: list of dicts from Acc.  make_replay(c) -> (kind, body, key) ; classify(c) -> finding id | None.
+        Candidates matching the characteristic predicate of an open listed finding are replayed only `per_finding`
+        times per finding; every other distinct candidate is replayed (up to max_confirm)."""
         seen = {}
+        openids = {f["id"] for f in self.open_findings()}
+        per = {}
+        todo = []
         for c in candidates:
             kind, body, key = make_replay(c)
             if key in seen:
                 continue
             seen[key] = c
-            if len(seen) > max_confirm:
-                break
+            fid = classify(c)
+            if fid is not None and fid in openids:
+                per[fid] = per.get(fid, 0) + 1
+                if per[fid] > per_finding:
+                    self.known_unreplayed = getattr(self, "known_unreplayed", 0) + 1
+                    continue
+            todo.append((c, kind, body, key, fid))
+        if len(todo) > max_confirm:
+            print("  [%s] note: %d distinct counterexample candidates, replaying the first %d" % (self.pid, len(todo), max_confirm))
+            self.unreplayed = len(todo) - max_confirm
+            todo = todo[:max_confirm]
+        for c, kind, body, key, fid in todo:
             path = self.write_replay(kind, body, key)
             rc, out = self.run_script(path)
-            fid = classify(c)
             if rc == 1 and "VIOLATED" not in out:
                 self.harness_error("replay script %s exited 1 without a verdict line: %s" % (path, out[-300:]))
             elif rc == 1:
-                openids = {f["id"] for f in self.open_findings()}
                 if fid is not None and fid in openids:
                     self.known_seen.append({"finding": fid, "input": c.get("input"), "replay": path})
                 else:
@@ -196,6 +209,8 @@ class Check:
             "unconfirmed_anomalies": self.unconfirmed[:20],
             "violations_detail": self.violations[:20],
             "harness_errors": self.harness_errors[:20],
+            "candidates_matching_known_findings_not_replayed": getattr(self, "known_unreplayed", 0),
+            "candidates_not_replayed_over_cap": getattr(self, "unreplayed", 0),
         }
         if self.cross is not None:
             cov["second_solver"] = self.cross
